@@ -24,6 +24,8 @@ CONSTANTS Nodes, Apps, Keys,       \* identifiers (strings)
           AppLeaf,                 \* [Apps -> Leaves]
           TaskGroups,              \* task group names for gang applications
           GangApps,                \* subset of Apps submitted as gang applications (Soft style)
+          Guar,                    \* [Leaves -> Nat] guaranteed resource of the leaf queues (0 = none)
+          PreemptOn,               \* BOOLEAN: queue preemption enabled (the Preempt action)
           AsCoded,                 \* BOOLEAN, see above
           MaxHist                  \* bound on the recorded history
 
@@ -39,22 +41,26 @@ VARIABLES node,   \* [Nodes -> [reg, sched : BOOLEAN, cap : Nat, keys : SUBSET K
           pend,   \* sequence of core initiated releases [key, term] the shim has not confirmed yet
           bad,    \* set of illegal announcements made so far (C04)
           den,    \* SUBSET (Keys \X Nodes): the shim's predicates refuse this ask on this node (kept for the life of the key name)
+          pq,     \* [Leaves -> Nat]  "preempting" ledger of the leaf queues: allocations marked as preemption victims, not yet released
           hist
-vars == <<node, ask, app, qal, resv, sv, pend, bad, den, hist>>
-view == <<node, ask, app, qal, resv, sv, pend, bad, den>>
+vars == <<node, ask, app, qal, resv, sv, pend, bad, den, pq, hist>>
+view == <<node, ask, app, qal, resv, sv, pend, bad, den, pq>>
 
 NoNode == "-"
-NoAsk == [st |-> "none", app |-> CHOOSE a \in Apps : TRUE, size |-> 0, ph |-> FALSE, tg |-> "", node |-> NoNode, rel |-> "", released |-> FALSE, listed |-> FALSE]
+NoAsk == [st |-> "none", app |-> CHOOSE a \in Apps : TRUE, size |-> 0, ph |-> FALSE, tg |-> "", node |-> NoNode, rel |-> "", released |-> FALSE, listed |-> FALSE, pre |-> FALSE, trig |-> FALSE]
 Sum(S, f(_)) == FoldSet(LAMBDA x, acc : acc + f(x), 0, S)
 HH(r) == hist' = IF Len(hist) < MaxHist THEN Append(hist, r) ELSE hist
-H(r) == HH(r) /\ UNCHANGED den        \* every action but Deny leaves the predicate outcomes alone
+HQ(r) == HH(r) /\ UNCHANGED den       \* every action but Deny leaves the predicate outcomes alone
+H(r) == HQ(r) /\ UNCHANGED pq         \* ... and only the actions that mark or remove preemption victims touch the preempting ledger
+\* the preempting ledger after the listed allocations K have gone
+PqLess(K) == [q \in Leaves |-> pq[q] - Sum({k \in K : ask[k].listed /\ ask[k].pre /\ AppLeaf[ask[k].app] = q}, LAMBDA k : ask[k].size)]
 Res(n) == [memory |-> n]
 
 Init == /\ node = [n \in Nodes |-> [reg |-> FALSE, sched |-> FALSE, cap |-> 0, keys |-> {}]]
         /\ ask = [k \in Keys |-> NoAsk]
         /\ app = [a \in Apps |-> [st |-> "none", known |-> FALSE]]
         /\ qal = [q \in Leaves |-> 0]
-        /\ resv = {} /\ sv = [k \in Keys |-> "none"] /\ pend = <<>> /\ bad = {} /\ den = {}
+        /\ resv = {} /\ sv = [k \in Keys |-> "none"] /\ pend = <<>> /\ bad = {} /\ den = {} /\ pq = [q \in Leaves |-> 0]
         /\ hist = <<>>
 
 (* ------------------------------------------------------------------ derived *)
@@ -115,7 +121,7 @@ Undrain(n) == /\ node[n].reg /\ ~node[n].sched
 \* the shim's predicates (affinity, taints, ...) refuse the ask on the node from now on
 Deny(k, n) == /\ ask[k].st = "pend" /\ ~ask[k].ph /\ <<k, n>> \notin den
               /\ den' = den \cup {<<k, n>>}
-              /\ UNCHANGED <<node, ask, app, qal, resv, sv, pend, bad>> /\ HH([op |-> "deny", key |-> k, node |-> n])
+              /\ UNCHANGED <<node, ask, app, qal, resv, sv, pend, bad, pq>> /\ HH([op |-> "deny", key |-> k, node |-> n])
 
 \* removeNode / removeNodeAllocations: every allocation held by the node object is removed from its application
 \* and queue; an in-flight swap touching the node is confirmed (placeholder here, real elsewhere) or reversed.
@@ -153,7 +159,8 @@ RemoveNode(n) ==
          bad' = bad \cup b1 \cup b2
       /\ sv' = [k \in Keys |-> IF k \in removedListed THEN "none" ELSE IF k \in confirmedReal THEN "bound" ELSE sv[k]]
       /\ pend' = SelectSeq(pend, LAMBDA p : p.key \notin removedListed)
-   /\ H([op |-> "removeNode", node |-> n])
+      /\ pq' = PqLess(removedListed)
+   /\ HQ([op |-> "removeNode", node |-> n])
 
 AddApp(a) == /\ app[a].st = "none"
              /\ app' = [app EXCEPT ![a] = [st |-> "New", known |-> TRUE]]
@@ -176,7 +183,8 @@ RemoveApp(a) ==
       /\ bad' = bad \cup {<<"release", rel[i]>> : i \in {j \in 1..Len(rel) : sv[rel[j]] = "none"}}
       /\ sv' = [k \in Keys |-> IF k \in mine THEN "none" ELSE sv[k]]
       /\ pend' = SelectSeq(pend, LAMBDA p : p.key \notin mine)
-   /\ H([op |-> "removeApp", app |-> a])
+      /\ pq' = PqLess(listed)
+   /\ HQ([op |-> "removeApp", app |-> a])
 
 \* a release without an allocation key: every allocation and every ask of the application goes (the application stays);
 \* an in-flight swap is undone with the placeholder, its real half leaves the node it was placed on
@@ -193,7 +201,8 @@ ReleaseAll(a) ==
       /\ bad' = bad \cup {<<"release", rel[i]>> : i \in {j \in 1..Len(rel) : sv[rel[j]] = "none"}}
       /\ sv' = [k \in Keys |-> IF k \in mine THEN "none" ELSE sv[k]]
       /\ pend' = SelectSeq(pend, LAMBDA p : p.key \notin mine)
-   /\ H([op |-> "releaseAll", app |-> a])
+      /\ pq' = PqLess(listed)
+   /\ HQ([op |-> "releaseAll", app |-> a])
 
 \* key names are interchangeable: a new ask always takes the first free name (fewer equivalent histories, same behaviours)
 KeyRank == CHOOSE f \in [Keys -> 1..Cardinality(Keys)] : \A x, y \in Keys : x # y => f[x] # f[y]
@@ -203,12 +212,12 @@ AddAsk(k, a, s, ph, tg) ==
    /\ \A x \in FreeKeys : KeyRank[k] <= KeyRank[x]
    /\ (ph => a \in GangApps /\ tg # "")
    /\ (tg # "" => a \in GangApps)
-   /\ ask' = [ask EXCEPT ![k] = [st |-> "pend", app |-> a, size |-> s, ph |-> ph, tg |-> tg, node |-> NoNode, rel |-> "", released |-> FALSE, listed |-> FALSE]]
+   /\ ask' = [ask EXCEPT ![k] = [st |-> "pend", app |-> a, size |-> s, ph |-> ph, tg |-> tg, node |-> NoNode, rel |-> "", released |-> FALSE, listed |-> FALSE, pre |-> FALSE, trig |-> FALSE]]
    /\ app' = [app EXCEPT ![a].st = IF app[a].st = "New" THEN "Accepted" ELSE IF app[a].st = "Completing" THEN "Running" ELSE app[a].st]
    /\ sv' = [sv EXCEPT ![k] = "out"]
    /\ UNCHANGED <<node, qal, resv, pend, bad>>
    /\ H([op |-> "addAsk", app |-> a, key |-> k, res |-> Res(s), ph |-> ph, tg |-> tg, aged |-> TRUE, reqNode |-> "", prio |-> 0,
-         preemptOther |-> FALSE, preemptSelf |-> TRUE, originator |-> FALSE, node |-> ""])
+         preemptOther |-> PreemptOn, preemptSelf |-> TRUE, originator |-> FALSE, node |-> ""])
 
 \* shim initiated release of a key (STOPPED_BY_RM): removeAllocation + RemoveAllocationAsk
 ReleaseKey(k) ==
@@ -233,7 +242,8 @@ ReleaseKey(k) ==
       /\ resv' = {r \in resv : r[1] # k}
       /\ app' = [app EXCEPT ![a].st = AfterLoss(a, askF, app[a].st)]
       /\ IF wasListed THEN AnnounceRelease(<<k>>, "STOPPED_BY_RM") ELSE (sv' = [sv EXCEPT ![k] = "none"] /\ UNCHANGED <<pend, bad>>)
-   /\ H([op |-> "release", app |-> ask[k].app, key |-> k, term |-> "STOPPED_BY_RM"])
+   /\ pq' = PqLess({k})
+   /\ HQ([op |-> "release", app |-> ask[k].app, key |-> k, term |-> "STOPPED_BY_RM"])
 
 \* the shim confirms the i-th outstanding core initiated release
 ConfirmReplace(ph) ==
@@ -270,15 +280,17 @@ Confirm(i) ==
               /\ sv' = [sv EXCEPT ![p.key] = IF sv[p.key] = "relAnn" THEN "none" ELSE sv[p.key]]
          ELSE IF p.term = "PLACEHOLDER_REPLACED" /\ ask[p.key].rel # "" THEN ConfirmReplace(p.key)
          ELSE IF p.term = "TIMEOUT" THEN ConfirmTimeout(p.key)
+         ELSE IF p.term = "PREEMPTED_BY_SCHEDULER" THEN ConfirmTimeout(p.key)      \* the victim is removed for real, same bookkeeping
          ELSE UNCHANGED <<node, ask, app, qal, resv, sv, bad>>
-      /\ H([op |-> "confirm", i |-> i - 1, keep |-> FALSE])
+      /\ pq' = IF ask[p.key].st # "none" /\ ask[p.key].listed /\ p.term = "PREEMPTED_BY_SCHEDULER" THEN PqLess({p.key}) ELSE pq
+      /\ HQ([op |-> "confirm", i |-> i - 1, keep |-> FALSE])
 
 \* placeholder timeout of a Soft gang application that has no real allocation yet
 FirePhTimer(a) ==
    /\ a \in GangApps /\ app[a].st = "Accepted" /\ PhListed(a) # {} /\ RealListed(a) = {}
    /\ LET \* as coded every placeholder allocation is released with TIMEOUT, also one whose replacement is in flight
           \* (it is then announced twice, with two termination types); intended: an in-flight swap is left alone
-          victims == IF AsCoded THEN PhListed(a) ELSE {k \in PhListed(a) : ask[k].rel = ""}
+          victims == IF AsCoded THEN {k \in PhListed(a) : ~ask[k].pre} ELSE {k \in PhListed(a) : ask[k].rel = "" /\ ~ask[k].pre}
           rel == SetToSeq(victims)
           askF == [k \in Keys |-> IF ask[k].app = a /\ ask[k].st = "pend" /\ ask[k].ph THEN NoAsk
                                   ELSE IF k \in victims THEN [ask[k] EXCEPT !.released = TRUE] ELSE ask[k]] IN
@@ -315,7 +327,7 @@ Reserve(k, n) ==
    /\ resv' = resv \cup {<<k, n>>}
    /\ UNCHANGED <<node, ask, app, qal, sv, pend, bad>> /\ Sched
 CanReplace(ph, real) ==
-   /\ ask[ph].listed /\ ask[ph].ph /\ ~ask[ph].released /\ ask[ph].rel = ""
+   /\ ask[ph].listed /\ ask[ph].ph /\ ~ask[ph].released /\ ~ask[ph].pre /\ ask[ph].rel = ""
    /\ ask[real].st = "pend" /\ ~ask[real].ph /\ ask[real].app = ask[ph].app /\ ask[real].tg = ask[ph].tg /\ ask[real].tg # ""
    /\ ask[real].size <= ask[ph].size /\ Schedulable(ask[ph].app)
 ReplaceSame(ph, real) ==
@@ -334,6 +346,30 @@ ReplaceCross(ph, real, n) ==
    /\ AnnounceRelease(<<ph>>, "PLACEHOLDER_REPLACED")
    /\ resv' = IF AsCoded THEN resv ELSE {r \in resv : r[1] # real}
    /\ UNCHANGED <<app, qal>> /\ Sched
+\* Queue preemption (tryAllocate -> tryPreemption): an ask of a queue below its guarantee that fits no node marks victims
+\* on one node, all in other leaf queues that stay above their own guarantee, announces their release
+\* (PREEMPTED_BY_SCHEDULER), counts them in the preempting ledger and reserves the node; it does so at most once.
+Used(q) == qal[q] - pq[q]
+MaxSize(S) == IF S = {} THEN 0 ELSE CHOOSE m \in {ask[v].size : v \in S} : \A v \in S : ask[v].size <= m
+Preempt(k, n, V) ==
+   /\ PreemptOn /\ ask[k].st = "pend" /\ ~ask[k].ph /\ ~ask[k].trig /\ Schedulable(ask[k].app)
+   /\ LET lk == AppLeaf[ask[k].app] IN
+      /\ Guar[lk] > 0 /\ Used(lk) < Guar[lk] /\ QueueFit(k)
+      /\ node[n].reg /\ node[n].sched /\ ~NodeFit(k, n) /\ <<k, n>> \notin den
+      /\ \A r \in resv : r[1] # k /\ r[2] # n
+      /\ V # {} /\ V \subseteq node[n].keys
+      /\ \A v \in V : ask[v].listed /\ ~ask[v].pre /\ ~ask[v].released /\ ask[v].rel = "" /\ AppLeaf[ask[v].app] # lk
+      \* the victims cover the ask and none of them is superfluous
+      /\ NodeAvail(n) + Sum(V, LAMBDA v : ask[v].size) >= ask[k].size
+      /\ \A v \in V : NodeAvail(n) + Sum(V \ {v}, LAMBDA w : ask[w].size) < ask[k].size
+      \* every victim is taken from a queue that is above its guarantee at that moment (largest victim last)
+      /\ \A q \in {AppLeaf[ask[v].app] : v \in V} :
+            LET tk == {v \in V : AppLeaf[ask[v].app] = q} IN Used(q) - (Sum(tk, LAMBDA v : ask[v].size) - MaxSize(tk)) > Guar[q]
+      /\ ask' = [x \in Keys |-> IF x \in V THEN [ask[x] EXCEPT !.pre = TRUE] ELSE IF x = k THEN [ask[x] EXCEPT !.trig = TRUE] ELSE ask[x]]
+      /\ pq' = [q \in Leaves |-> pq[q] + Sum({v \in V : AppLeaf[ask[v].app] = q}, LAMBDA v : ask[v].size)]
+      /\ resv' = resv \cup {<<k, n>>}
+      /\ AnnounceRelease(SetToSeq(V), "PREEMPTED_BY_SCHEDULER")
+      /\ UNCHANGED <<node, app, qal>> /\ HQ([op |-> "schedule"])
 Idle == UNCHANGED <<node, ask, app, qal, resv, sv, pend, bad>> /\ Sched
 
 Next == \/ \E n \in Nodes, c \in Caps : AddNode(n, c)
@@ -346,6 +382,7 @@ Next == \/ \E n \in Nodes, c \in Caps : AddNode(n, c)
         \/ \E i \in 1..Len(pend) : Confirm(i)
         \/ \E k \in Keys, n \in Nodes : Allocate(k, n) \/ Reserve(k, n)
         \/ \E p, r \in Keys : ReplaceSame(p, r) \/ \E n \in Nodes : ReplaceCross(p, r, n)
+        \/ \E k \in Keys, n \in Nodes : \E V \in SUBSET node[n].keys : Preempt(k, n, V)
 Spec == Init /\ [][Next]_vars
 
 \* Warm start: the state after  addNode n, addNode m, addApp g, addAsk k (placeholder), schedule  with the placeholder
@@ -362,11 +399,11 @@ InitWarm ==
       /\ node = [w \in Nodes |-> IF w = WN1 THEN [reg |-> TRUE, sched |-> TRUE, cap |-> WarmCap, keys |-> {WK}]
                                   ELSE IF w = WN2 THEN [reg |-> TRUE, sched |-> TRUE, cap |-> WarmCap, keys |-> {}]
                                   ELSE [reg |-> FALSE, sched |-> FALSE, cap |-> 0, keys |-> {}]]
-      /\ ask = [w \in Keys |-> IF w = WK THEN [st |-> "alloc", app |-> WG, size |-> 2, ph |-> TRUE, tg |-> WTG, node |-> WN1, rel |-> "", released |-> FALSE, listed |-> TRUE]
+      /\ ask = [w \in Keys |-> IF w = WK THEN [st |-> "alloc", app |-> WG, size |-> 2, ph |-> TRUE, tg |-> WTG, node |-> WN1, rel |-> "", released |-> FALSE, listed |-> TRUE, pre |-> FALSE, trig |-> FALSE]
                                 ELSE NoAsk]
       /\ app = [w \in Apps |-> IF w = WG THEN [st |-> "Accepted", known |-> TRUE] ELSE [st |-> "none", known |-> FALSE]]
       /\ qal = [q \in Leaves |-> IF q = AppLeaf[WG] THEN 2 ELSE 0]
-      /\ resv = {} /\ sv = [w \in Keys |-> IF w = WK THEN "bound" ELSE "none"] /\ pend = <<>> /\ bad = {} /\ den = {}
+      /\ resv = {} /\ sv = [w \in Keys |-> IF w = WK THEN "bound" ELSE "none"] /\ pend = <<>> /\ bad = {} /\ den = {} /\ pq = [q \in Leaves |-> 0]
       /\ hist = << [op |-> "addNode", node |-> WN1, cap |-> Res(WarmCap), drained |-> FALSE],
                    [op |-> "addNode", node |-> WN2, cap |-> Res(WarmCap), drained |-> FALSE],
                    [op |-> "addApp", app |-> WG, queue |-> AppLeaf[WG], user |-> "u0", groups |-> <<"g1">>, tags |-> [w \in {} |-> ""],
@@ -384,12 +421,12 @@ InitWarm2 ==
       /\ node = [w \in Nodes |-> IF w = WN1 THEN [reg |-> TRUE, sched |-> TRUE, cap |-> WarmCap, keys |-> {WK}]
                                   ELSE IF w = WN2 THEN [reg |-> TRUE, sched |-> TRUE, cap |-> WarmCap, keys |-> {}]
                                   ELSE [reg |-> FALSE, sched |-> FALSE, cap |-> 0, keys |-> {}]]
-      /\ ask = [w \in Keys |-> IF w = WK THEN [st |-> "alloc", app |-> WG, size |-> 2, ph |-> TRUE, tg |-> WTG, node |-> WN1, rel |-> "", released |-> FALSE, listed |-> TRUE]
-                                ELSE IF w = WK2 THEN [st |-> "pend", app |-> WG, size |-> 1, ph |-> FALSE, tg |-> WTG, node |-> NoNode, rel |-> "", released |-> FALSE, listed |-> FALSE]
+      /\ ask = [w \in Keys |-> IF w = WK THEN [st |-> "alloc", app |-> WG, size |-> 2, ph |-> TRUE, tg |-> WTG, node |-> WN1, rel |-> "", released |-> FALSE, listed |-> TRUE, pre |-> FALSE, trig |-> FALSE]
+                                ELSE IF w = WK2 THEN [st |-> "pend", app |-> WG, size |-> 1, ph |-> FALSE, tg |-> WTG, node |-> NoNode, rel |-> "", released |-> FALSE, listed |-> FALSE, pre |-> FALSE, trig |-> FALSE]
                                 ELSE NoAsk]
       /\ app = [w \in Apps |-> IF w = WG THEN [st |-> "Accepted", known |-> TRUE] ELSE [st |-> "none", known |-> FALSE]]
       /\ qal = [q \in Leaves |-> IF q = AppLeaf[WG] THEN 2 ELSE 0]
-      /\ resv = {} /\ sv = [w \in Keys |-> IF w = WK THEN "bound" ELSE IF w = WK2 THEN "out" ELSE "none"] /\ pend = <<>> /\ bad = {} /\ den = {}
+      /\ resv = {} /\ sv = [w \in Keys |-> IF w = WK THEN "bound" ELSE IF w = WK2 THEN "out" ELSE "none"] /\ pend = <<>> /\ bad = {} /\ den = {} /\ pq = [q \in Leaves |-> 0]
       /\ hist = << [op |-> "addNode", node |-> WN1, cap |-> Res(WarmCap), drained |-> FALSE],
                    [op |-> "addNode", node |-> WN2, cap |-> Res(WarmCap), drained |-> FALSE],
                    [op |-> "addApp", app |-> WG, queue |-> AppLeaf[WG], user |-> "u0", groups |-> <<"g1">>, tags |-> [w \in {} |-> ""],
@@ -411,17 +448,69 @@ InitFull ==
                                   ELSE IF w = WN2 THEN [reg |-> TRUE, sched |-> TRUE, cap |-> FullCap, keys |-> {FK2}]
                                   ELSE [reg |-> FALSE, sched |-> FALSE, cap |-> 0, keys |-> {}]]
       /\ ask = [w \in Keys |-> IF w \in {FK1, FK2}
-                                THEN [st |-> "alloc", app |-> FA, size |-> FullCap, ph |-> FALSE, tg |-> "", node |-> IF w = FK1 THEN WN1 ELSE WN2, rel |-> "", released |-> FALSE, listed |-> TRUE]
+                                THEN [st |-> "alloc", app |-> FA, size |-> FullCap, ph |-> FALSE, tg |-> "", node |-> IF w = FK1 THEN WN1 ELSE WN2, rel |-> "", released |-> FALSE, listed |-> TRUE, pre |-> FALSE, trig |-> FALSE]
                                 ELSE NoAsk]
       /\ app = [w \in Apps |-> IF w = FA THEN [st |-> "Running", known |-> TRUE] ELSE [st |-> "none", known |-> FALSE]]
       /\ qal = [q \in Leaves |-> IF q = AppLeaf[FA] THEN 2 * FullCap ELSE 0]
-      /\ resv = {} /\ sv = [w \in Keys |-> IF w \in {FK1, FK2} THEN "bound" ELSE "none"] /\ pend = <<>> /\ bad = {} /\ den = {}
+      /\ resv = {} /\ sv = [w \in Keys |-> IF w \in {FK1, FK2} THEN "bound" ELSE "none"] /\ pend = <<>> /\ bad = {} /\ den = {} /\ pq = [q \in Leaves |-> 0]
       /\ hist = << [op |-> "addNode", node |-> WN1, cap |-> Res(FullCap), drained |-> FALSE],
                    [op |-> "addNode", node |-> WN2, cap |-> Res(FullCap), drained |-> FALSE],
                    [op |-> "addApp", app |-> FA, queue |-> AppLeaf[FA], user |-> "u0", groups |-> <<"g1">>, tags |-> [w \in {} |-> ""],
                     gang |-> TRUE, style |-> "Soft", phAsk |-> Res(4), forced |-> FALSE],
                    FullAsk(FK1), FullAsk(FK2), [op |-> "schedule"], [op |-> "schedule"] >>
 SpecFull == InitFull /\ [][Next]_vars
+\* Warm start "pre": both nodes (capacity 2) are full with allocations of an application in a queue without guarantee
+\* (one of size 2 on the first node, two of size 1 on the second), a second application in the guaranteed queue is
+\* submitted.  A few further steps reach queue preemption and what can happen while victims are marked but not yet
+\* released (confirmations in any order, release by the shim, node / application removal, a second asking ask).
+PV == CHOOSE w \in Apps : Guar[AppLeaf[w]] = 0
+PA == CHOOSE w \in Apps : Guar[AppLeaf[w]] > 0
+PK(i) == CHOOSE w \in Keys : KeyRank[w] = i
+PreAsk(k, sz) == [op |-> "addAsk", app |-> PV, key |-> k, res |-> Res(sz), ph |-> FALSE, tg |-> "", aged |-> TRUE, reqNode |-> "", prio |-> 0,
+                  preemptOther |-> TRUE, preemptSelf |-> TRUE, originator |-> FALSE, node |-> ""]
+PreApp(a) == [op |-> "addApp", app |-> a, queue |-> AppLeaf[a], user |-> "u0", groups |-> <<"g1">>, tags |-> [w \in {} |-> ""],
+              gang |-> FALSE, style |-> "", phAsk |-> Res(4), forced |-> FALSE]
+InitPre ==
+      /\ node = [w \in Nodes |-> IF w = WN1 THEN [reg |-> TRUE, sched |-> TRUE, cap |-> 2, keys |-> {PK(1)}]
+                                  ELSE IF w = WN2 THEN [reg |-> TRUE, sched |-> TRUE, cap |-> 2, keys |-> {PK(2), PK(3)}]
+                                  ELSE [reg |-> FALSE, sched |-> FALSE, cap |-> 0, keys |-> {}]]
+      /\ ask = [w \in Keys |-> IF w \in {PK(1), PK(2), PK(3)}
+                                THEN [st |-> "alloc", app |-> PV, size |-> IF w = PK(1) THEN 2 ELSE 1, ph |-> FALSE, tg |-> "", node |-> IF w = PK(1) THEN WN1 ELSE WN2,
+                                      rel |-> "", released |-> FALSE, listed |-> TRUE, pre |-> FALSE, trig |-> FALSE]
+                                ELSE NoAsk]
+      /\ app = [w \in Apps |-> IF w = PV THEN [st |-> "Running", known |-> TRUE] ELSE IF w = PA THEN [st |-> "New", known |-> TRUE] ELSE [st |-> "none", known |-> FALSE]]
+      /\ qal = [q \in Leaves |-> IF q = AppLeaf[PV] THEN 4 ELSE 0]
+      /\ resv = {} /\ sv = [w \in Keys |-> IF w \in {PK(1), PK(2), PK(3)} THEN "bound" ELSE "none"] /\ pend = <<>> /\ bad = {} /\ den = {} /\ pq = [q \in Leaves |-> 0]
+      /\ hist = << [op |-> "addNode", node |-> WN1, cap |-> Res(2), drained |-> FALSE],
+                   [op |-> "addNode", node |-> WN2, cap |-> Res(2), drained |-> FALSE],
+                   PreApp(PV), PreAsk(PK(1), 2), PreAsk(PK(2), 1), PreAsk(PK(3), 1),
+                   [op |-> "schedule"], [op |-> "schedule"], [op |-> "schedule"], PreApp(PA) >>
+SpecPre == InitPre /\ [][Next]_vars
+\* ... and one step further: the guaranteed application has asked (size 2), the scheduler has marked the size 2 allocation on
+\* the first node as victim, announced its release and reserved that node: a preemption is in flight
+PAsk == [op |-> "addAsk", app |-> PA, key |-> PK(4), res |-> Res(2), ph |-> FALSE, tg |-> "", aged |-> TRUE, reqNode |-> "", prio |-> 0,
+         preemptOther |-> TRUE, preemptSelf |-> TRUE, originator |-> FALSE, node |-> ""]
+InitPre2 ==
+      /\ node = [w \in Nodes |-> IF w = WN1 THEN [reg |-> TRUE, sched |-> TRUE, cap |-> 2, keys |-> {PK(1)}]
+                                  ELSE IF w = WN2 THEN [reg |-> TRUE, sched |-> TRUE, cap |-> 2, keys |-> {PK(2), PK(3)}]
+                                  ELSE [reg |-> FALSE, sched |-> FALSE, cap |-> 0, keys |-> {}]]
+      /\ ask = [w \in Keys |-> IF w \in {PK(1), PK(2), PK(3)}
+                                THEN [st |-> "alloc", app |-> PV, size |-> IF w = PK(1) THEN 2 ELSE 1, ph |-> FALSE, tg |-> "", node |-> IF w = PK(1) THEN WN1 ELSE WN2,
+                                      rel |-> "", released |-> FALSE, listed |-> TRUE, pre |-> w = PK(1), trig |-> FALSE]
+                                ELSE IF w = PK(4) THEN [st |-> "pend", app |-> PA, size |-> 2, ph |-> FALSE, tg |-> "", node |-> NoNode, rel |-> "", released |-> FALSE,
+                                                        listed |-> FALSE, pre |-> FALSE, trig |-> TRUE]
+                                ELSE NoAsk]
+      /\ app = [w \in Apps |-> IF w = PV THEN [st |-> "Running", known |-> TRUE] ELSE IF w = PA THEN [st |-> "Accepted", known |-> TRUE] ELSE [st |-> "none", known |-> FALSE]]
+      /\ qal = [q \in Leaves |-> IF q = AppLeaf[PV] THEN 4 ELSE 0]
+      /\ resv = {<<PK(4), WN1>>}
+      /\ sv = [w \in Keys |-> IF w = PK(1) THEN "relAnn" ELSE IF w \in {PK(2), PK(3)} THEN "bound" ELSE IF w = PK(4) THEN "out" ELSE "none"]
+      /\ pend = <<[key |-> PK(1), term |-> "PREEMPTED_BY_SCHEDULER"]>> /\ bad = {} /\ den = {}
+      /\ pq = [q \in Leaves |-> IF q = AppLeaf[PV] THEN 2 ELSE 0]
+      /\ hist = << [op |-> "addNode", node |-> WN1, cap |-> Res(2), drained |-> FALSE],
+                   [op |-> "addNode", node |-> WN2, cap |-> Res(2), drained |-> FALSE],
+                   PreApp(PV), PreAsk(PK(1), 2), PreAsk(PK(2), 1), PreAsk(PK(3), 1),
+                   [op |-> "schedule"], [op |-> "schedule"], [op |-> "schedule"], PreApp(PA), PAsk, [op |-> "schedule"] >>
+SpecPre2 == InitPre2 /\ [][Next]_vars
 
 (* ================================================================== invariants (the listed properties on the design) *)
 TypeOK == /\ \A n \in Nodes : node[n].keys \subseteq Keys
@@ -438,6 +527,9 @@ C03_NoOrphans == /\ \A n \in Nodes : \A k \in node[n].keys : ask[k].node = n /\ 
                  /\ \A k \in Keys : ask[k].listed => ask[k].st = "alloc" /\ ask[k].node \in Nodes /\ k \in node[ask[k].node].keys /\ Live(ask[k].app)
                  /\ \A n \in Nodes : ~node[n].reg => node[n].keys = {}
 C03_NonNegative == \A q \in Leaves : qal[q] >= 0
+\* the preempting ledger is exactly the marked victims that are still there; nothing is marked without a triggering ask
+C03_Preempting == \A q \in Leaves : pq[q] = Sum({k \in Keys : ask[k].listed /\ ask[k].pre /\ AppLeaf[ask[k].app] = q}, LAMBDA k : ask[k].size)
+C08_GuaranteeKept == \A q \in Leaves : (Guar[q] > 0 /\ pq[q] > 0) => Used(q) >= Guar[q]
 C04_Legal == bad = {}
 C06_NoStrayPlaceholder == \A k \in Keys : (ask[k].listed /\ ask[k].ph) => Live(ask[k].app)
 C06_SwapLinks == \A k \in Keys : ask[k].rel # "" => (ask[ask[k].rel].rel = k /\ ask[k].app = ask[ask[k].rel].app)
